@@ -44,7 +44,8 @@ package lock
 //@        (emits Redirect(?ro) -> ?re :: result.1 == re && ro.Code == 307 && ro.RedirectPath == l.Config.Paths.LockNotOK &&
 //@            ro.Failure == loc(l.Authboss, TxtLocked) && ro.Success == "" && ro.FollowRedirParam == false &&
 //@            !(before Redirect(_)) && !(after Redirect(_))) &&
-//@        !emits Respond(_, _, _) && !emits Sess.Put(_, _) && !emits Sess.Del(_) && !emits Cook.Put(_, _) && !emits Cook.Del(_))
+//@        !emits Respond(_, _, _) && !emits Sess.Put(_, _) && !emits Sess.Del(_) && !emits Cook.Put(_, _) && !emits Cook.Del(_) &&
+//@        !emits HeaderSet(_, _, _) && !emits WriteHeader(_, _) && !emits Write(_, _) && !emits HTTPRedirect(_, _, _))
 //@
 //@ func (*Lock).BeforeAuth
 //@   property C03
